@@ -15,7 +15,7 @@ RULE = (
     "ConvexPolyhedron) a family of 3-6 alternative exact representations is generated: other defining points on "
     "the carrier, direction/normal scalings by +-k (positive only for HalfLine), swapped end points, constructor "
     "forms (two points / point+vector / position vector / three points / two vectors / general form), vertex "
-    "rotations, reflections and repeats, face permutations and negations, int / float / Fraction coordinates (also mixed within one Point or Vector) "
+    "rotations, reflections and repeats, face permutations and negations, int / float / Fraction coordinates (also mixed within one Point or Vector), lines and planes as the library computes them (intersection of two planes; plane through three computed line hits) "
     "(dyadic lattice values), and a copy moved by v and back by -v; plus a family of near-miss different sets (one "
     "defining point displaced by >= 1/512, direction tilted by a lattice step, one vertex changed or removed, and "
     "pairs that differ only by the coordinate values -1 / -2, which collide under CPython's float hash). Oracle: within "
@@ -76,6 +76,17 @@ def build_rep(kind, o, rep):
             l.move(v)
             l.move(-v)
             return l
+        if form == "computed":
+            # the line as the library computes it: intersection of two planes through it (its direction and support
+            # then carry float noise where the exact values are zero or short fractions)
+            u, v = X.perp2(o[2])
+            a, b = rep[3]
+            n1 = X.add(u, X.mul(a, v))
+            n2 = X.add(X.mul(b, u), v)
+            r = G.intersection(G.Plane(B.pt(p, ct), B.vec(n1, ct)), G.Plane(B.pt(X.add(p, d), ct), B.vec(n2, ct)))
+            if not isinstance(r, G.Line):
+                raise TypeError("intersection of two planes through a line is a %s" % type(r).__name__)
+            return r
     if kind == "PL":
         form, ij, k = rep[0], rep[1], rep[2]
         u, v = X.perp2(o[2])
@@ -93,6 +104,23 @@ def build_rep(kind, o, rep):
             w1 = X.add(X.mul(a[0], u), X.mul(a[1], v))
             w2 = X.add(X.mul(b[0], u), X.mul(b[1], v))
             return G.Plane(B.pt(p, ct), B.vec(w1, ct), B.vec(w2, ct))
+        if form == "computed3p":
+            # three points of the plane as the library computes them: hits of oblique lines (non-dyadic parameters)
+            a, b = rep[3]
+            q0 = p
+            q1 = X.add(p, X.add(X.mul(a[0], u), X.mul(a[1], v)))
+            q2 = X.add(p, X.add(X.mul(b[0], u), X.mul(b[1], v)))
+            base = G.Plane(B.pt(o[1], ct), B.vec(o[2], ct))
+            hits = []
+            for q, w in zip((q0, q1, q2), rep[4]):
+                w = tuple(F(c) for c in w)
+                if X.dot(w, o[2]) == 0:
+                    w = X.add(w, o[2])
+                h = G.intersection(G.Line(B.pt(X.sub(q, X.mul(F(1, 3), w)), float), B.vec(w, float)), base)
+                if not isinstance(h, G.Point):
+                    raise TypeError("intersection of a crossing line with the plane is a %s" % type(h).__name__)
+                hits.append(h)
+            return G.Plane(hits[0], hits[1], hits[2])
         if form == "gf":
             d = X.dot(n, o[1])
             return G.Plane(B.conv(n[0], ct), B.conv(n[1], ct), B.conv(n[2], ct), B.conv(d, ct))
@@ -251,20 +279,25 @@ def rep_for(draw, kind, o):
             return ("points", draw(gen.lattice_point(4)), ct)
         return (form, ct)
     if kind == "L":
-        form = draw(st.sampled_from(("pv", "pp", "vv", "moved")))
+        form = draw(st.sampled_from(("pv", "pp", "vv", "moved", "computed")))
         t = draw(st.sampled_from(gen.T_TABLE + (F(3), F(-5, 2))))
         k = draw(st.sampled_from(gen.SCALES))
+        if form == "computed":
+            return ("computed", t, k, (F(draw(st.sampled_from((0, 1, -2, 3)))), F(draw(st.sampled_from((0, -1, 2, 5))))), ct)
         if form == "moved":
             return ("moved", t, k, draw(gen.direction(3)), ct)
         return (form, t, k, ct)
     if kind == "PL":
-        form = draw(st.sampled_from(("pn", "pn", "3p", "pvv", "gf", "neg", "moved")))
+        form = draw(st.sampled_from(("pn", "pn", "3p", "pvv", "gf", "neg", "moved", "computed3p")))
         ij = (F(draw(st.integers(-3, 3))), F(draw(st.integers(-3, 3)), draw(st.sampled_from((1, 2)))))
         k = draw(st.sampled_from(gen.SCALES))
-        if form in ("3p", "pvv"):
+        if form in ("3p", "pvv", "computed3p"):
             a = (draw(st.integers(-2, 2)), draw(st.integers(-2, 2)))
             b = (draw(st.integers(-2, 2)), draw(st.integers(-2, 2)))
             assume(a[0] * b[1] - a[1] * b[0] != 0)
+            if form == "computed3p":
+                ws = tuple(draw(st.sampled_from(((1, 2, 3), (3, -1, 2), (-2, 3, 1), (1, 1, 3), (3, 2, -1), (2, -3, 3)))) for _ in range(3))
+                return (form, ij, k, (a, b), ws, ct)
             return (form, ij, k, (a, b), ct)
         if form == "moved":
             return (form, ij, k, draw(gen.direction(3)), ct)
